@@ -75,6 +75,7 @@ def run_case(case: dict) -> dict:
                 # (more shards than the pipeline keeps in flight)
                 par = 1
                 shuffle = max(shuffle, 2)
+                iface = "conc" if (fmt == "tfrec" or rng.random() < 0.7) else "tfds"   # the lazy-pool paths
                 perturb = {"stall": 2.6}
                 obs["stalled_consumer_passes"] += 1
             label = f"{iface} split={split} shuffle={shuffle} par={par} process={process} {perturb}"
